@@ -158,7 +158,7 @@ def _lc_project(s):
 PROPS = {
     'C01': {
         'id': 'C01', 'area': 'dp',
-        'theorems': ['Props.C01_storage_stream', 'Props.C01_serial_stream', 'Props.C01_consts', 'Props.C01_storage_at_msg', 'Props.C01_serial_at_msg', 'Props.C01_at_garbage'],
+        'theorems': ['Props.C01_storage_stream', 'Props.C01_serial_stream', 'Props.C01_oracle_hypothesis', 'Props.C01_consts', 'Props.C01_storage_at_msg', 'Props.C01_serial_at_msg', 'Props.C01_at_garbage'],
         'n_quick': 3000, 'n_thorough': 30000,
     },
     'C02': {
@@ -179,7 +179,7 @@ PROPS = {
     'C04': {
         'id': 'C04', 'area': ['lm', 'lw'],
         'theorems': ['Props.C04_reader_invariant', 'Props.C04_fill_hands_out_source', 'Props.C04_read_in_order',
-                     'Props.C04_seek_within_buffer', 'Props.C04_consts'],
+                     'Props.C04_seek_within_buffer', 'Props.C04_parse_window', 'Props.C04_min_buffer_suffices', 'Props.C04_consts'],
         'n_quick': [1500, 60], 'n_thorough': [40000, 1500],
     },
     'C17': {
